@@ -435,6 +435,10 @@ impl PacketReceiver {
     }
 }
 
+#[cfg(feature = "verif")]
+impl PacketReceiver {
+    pub fn verif_alloc(&self) -> usize { self.assembly_window.verif_alloc() }
+}
 
 #[cfg(test)]
 mod tests {
